@@ -723,7 +723,7 @@ mod vh_popen {
             child_state: if finished {
                 ChildState::Finished(stored)
             } else {
-                ChildState::Running { pid: 100, ext: () }
+                ChildState::Running { pid: 100, ext: unsafe { std::mem::zeroed() } }
             },
             detached: kani::any(),
         };
@@ -1038,39 +1038,37 @@ mod vh_popen {
     use std::alloc::{GlobalAlloc, Layout, System};
 
     pub unsafe fn obs_alloc(layout: Layout) -> *mut u8 {
-        mp::ALLOCS += 1;
         System.alloc(layout)
     }
     pub unsafe fn obs_alloc_zeroed(layout: Layout) -> *mut u8 {
-        mp::ALLOCS += 1;
         System.alloc_zeroed(layout)
     }
     pub unsafe fn obs_realloc(ptr: *mut u8, layout: Layout, new_size: usize) -> *mut u8 {
-        mp::ALLOCS += 1;
         System.realloc(ptr, layout, new_size)
     }
 
-    /// The observer itself must see std's containers allocate, or C17 is dead.
+    /// The observer itself must see std's containers allocate AND grow, or C17 is dead.
     #[kani::proof]
-    #[kani::stub(std::alloc::alloc, obs_alloc)]
-    #[kani::stub(std::alloc::alloc_zeroed, obs_alloc_zeroed)]
-    #[kani::stub(std::alloc::realloc, obs_realloc)]
     fn h_alloc_witness() {
         unsafe {
-            mp::ALLOCS = 0;
+            let s0 = mp::VK_ALLOCS;
             let v = vec![1u8, 2, 3];
-            let a1 = mp::ALLOCS;
+            let a1 = mp::VK_ALLOCS;
             let b = Box::new(7u32);
-            let a2 = mp::ALLOCS;
+            let a2 = mp::VK_ALLOCS;
             let s = std::ffi::CString::new("ab").unwrap();
-            let a3 = mp::ALLOCS;
+            let a3 = mp::VK_ALLOCS;
             let r = Rc::new(5u8);
-            let a4 = mp::ALLOCS;
-            let mut g: Vec<u8> = Vec::with_capacity(1);
-            g.push(1);
-            g.push(2);
-            let a5 = mp::ALLOCS;
-            assert!(a1 > 0 && a2 > a1 && a3 > a2 && a4 > a3 && a5 > a4, "C17/observer-alive: the allocation observer does not see Vec/Box/CString/Rc allocations or Vec growth");
+            let a4 = mp::VK_ALLOCS;
+            let mut g: Vec<u8> = Vec::with_capacity(4);
+            let a5 = mp::VK_ALLOCS;
+            g.extend_from_slice(b"dddd");
+            let a6 = mp::VK_ALLOCS;
+            g.extend_from_slice(b"/");
+            let a7 = mp::VK_ALLOCS;
+            assert!(a1 > s0 && a2 > a1 && a3 > a2 && a4 > a3 && a5 > a4, "C17/observer-alive: the allocation observer does not see Vec/Box/CString/Rc allocations");
+            assert!(a6 == a5, "C17/observer-exact: the observer counted an allocation where none happens (write within capacity)");
+            assert!(a7 > a6, "C17/observer-sees-growth: the observer does not see a Vec growing beyond its capacity (realloc)");
             std::mem::forget((v, b, s, r, g));
         }
     }
@@ -1080,9 +1078,6 @@ mod vh_popen {
     #[kani::proof]
     #[kani::stub(get_standard_stream, gss)]
     #[kani::stub(crate::posix::fcntl, crate::mk::fcntl_model)]
-    #[kani::stub(std::alloc::alloc, obs_alloc)]
-    #[kani::stub(std::alloc::alloc_zeroed, obs_alloc_zeroed)]
-    #[kani::stub(std::alloc::realloc, obs_realloc)]
     fn h_alloc_nulcwd() {
         mk::link_model();
         unsafe {
@@ -1103,9 +1098,6 @@ mod vh_popen {
     #[kani::proof]
     #[kani::stub(get_standard_stream, gss)]
     #[kani::stub(crate::posix::fcntl, crate::mk::fcntl_model)]
-    #[kani::stub(std::alloc::alloc, obs_alloc)]
-    #[kani::stub(std::alloc::alloc_zeroed, obs_alloc_zeroed)]
-    #[kani::stub(std::alloc::realloc, obs_realloc)]
     fn h_alloc_child() {
         mk::link_model();
         unsafe { fail_child(any_kinds(), kani::any()) }
@@ -1238,6 +1230,37 @@ mod vh_popen {
             drop(p);
             vcheck!(C12, detached || mp::KIDS[0].st == mp::KidSt::Reaped, "C12/drop-reaps: after an operation on the handle, dropping the non-detached Popen left its child unreaped (zombie)");
             kani::cover!(op == 5, "COVER/kill-then-drop");
+        }
+    }
+
+    /// The whole back-off schedule with concrete times: d = 10 s from t = 0, the
+    /// child exits at any of the first 10 status checks (or later): sleeps must be
+    /// 1, 2, 4, ..., 64, 100, 100, ... ms.
+    #[kani::proof]
+    fn h_wait_backoff() {
+        mk::link_model();
+        unsafe {
+            let mut l = any_life_state();
+            kani::assume(!l.finished);
+            mk::time::NOW_S = 0;
+            mk::time::NOW_NS = 0;
+            mk::time::AT_SLEEP = Some(on_sleep);
+            PREV_SLEEP_NS = 0;
+            MAX_SLEEPS = 10;
+            DL_S = 10;
+            DL_NS = 0;
+            let r = l.p.wait_timeout(Duration::new(10, 0));
+            kani::cover!(mk::time::SLEEPS >= 9, "COVER/steady-state-reached");
+            match r {
+                Ok(Some(_)) => {
+                    vcheck!(C11, mp::KIDS[0].st == mp::KidSt::Reaped, "C11/status-only-after-exit: a status was reported while the child is still running");
+                }
+                Ok(None) => {
+                    vcheck!(C11, false, "C11/none-not-early: 'still running' reported long before the duration elapsed");
+                }
+                Err(e) => std::mem::forget(e),
+            }
+            std::mem::forget(l);
         }
     }
 }
